@@ -21,6 +21,11 @@
 
 import math
 import matplotlib.pyplot as plt
+import os
+if os.environ.get("PRIVATE_PGM_VERIF") == "1":
+    from mbi import _verif_trace as _vt
+else:
+    _vt = None
 
 
 #*********************************************************************
@@ -64,8 +69,12 @@ def cdp_delta(rho,eps):
             amin=alpha
         else:
             amax=alpha
+        if _vt is not None and _vt.sink is not None and _vt.detail:
+            _vt.emit('bisect', fn='cdp_delta', i=i, mid=alpha, lo=amin, hi=amax, value=derivative)
     #now calculate delta
     delta = math.exp((alpha-1)*(alpha*rho-eps)+alpha*math.log1p(-1/alpha)) / (alpha-1.0)
+    if _vt is not None and _vt.sink is not None and _vt.detail:
+        _vt.emit('cdp_delta', rho=rho, eps=eps, alpha=alpha, amin=amin, amax=amax, delta=delta)
     return min(delta,1.0) #delta<=1 always
 
 #Above we compute delta given rho and eps, now we compute eps instead
@@ -83,6 +92,8 @@ def cdp_eps(rho,delta):
             epsmax=eps
         else:
             epsmin=eps
+        if _vt is not None and _vt.sink is not None:
+            _vt.emit('bisect', fn='cdp_eps', i=i, mid=eps, lo=epsmin, hi=epsmax, rho=rho, delta=delta)
     return epsmax
 
 #Now we compute rho
@@ -99,4 +110,6 @@ def cdp_rho(eps,delta):
             rhomin=rho
         else:
             rhomax=rho
+        if _vt is not None and _vt.sink is not None:
+            _vt.emit('bisect', fn='cdp_rho', i=i, mid=rho, lo=rhomin, hi=rhomax, eps=eps, delta=delta)
     return rhomin
